@@ -1080,7 +1080,9 @@ class Repository:
             )
 
     def _flatten_resolve_paths(self, paths):
-        return list(flatten_paths(path.resolve(strict=True) for path in paths))
+        # The same file may be given twice or be reachable through overlapping paths
+        flattened = flatten_paths(path.resolve(strict=True) for path in paths)
+        return list(dict.fromkeys(flattened))
 
     async def snapshot(self, *, paths, note=None, rate_limit=None):
         self.display_status('Collecting files')
